@@ -85,6 +85,13 @@ BUILT: dict[str, dict[str, str]] = {
         note="In-memory storage; GA samplers under HyperbandPruner are not generated (they crash independently of direction).",
         ref="DESIGN.md 3/C13",
     ),
+    "C10": dict(
+        technique="property-based testing (Hypothesis): generated adversarial distributions x trial plans (changing ranges, enqueued / fixed values, rejected-then-retried suggestions, pruned / failed trials) x every sampler in independent and relative mode x four backends; membership judged by an exact-rational oracle, stability and read-back equality checked inside and after the objective",
+        category="exploration",
+        text="Generated-input search: every suggest_* return value of thousands of studies is tested for membership in the declared domain (exact arithmetic for step grids, 4+|log| ulps for log floats), for stability on a second call, for precedence of enqueued / fixed values, and against trial.params and the backend's study.trials. Absence of counterexamples in the explored region only.",
+        note="Ordinary magnitudes; GA samplers are not combined with log ranges a few ulps wide (their rejection loop does not terminate there: recorded in DESIGN.md as a defect outside the listed properties); GP in the thorough tier only.",
+        ref="DESIGN.md 3/C10",
+    ),
 }
 
 NOT_YET: dict[str, str] = {}
